@@ -90,7 +90,7 @@ def region_dims(fd, U, letters, key_dict):
 
 def do_reads(hub, U, letters, assign, rng, regime):
     fd = hub.fd
-    x = fd.FlodymArray(dims=gen.dimset(fd, U, letters), values=gen.values_one(regime, rng, gen.shape_of(U, letters)))
+    x = gen.Fresh(hub, fd.FlodymArray(dims=gen.dimset(fd, U, letters), values=gen.values_one(regime, rng, gen.shape_of(U, letters), layout=True)))
     for order in ("id", "rev", "rot", "rand"):
         if "S" not in assign and order != "id":
             continue
